@@ -10,29 +10,42 @@ fn stub_format(_a: std::fmt::Arguments<'_>) -> String {
     String::new()
 }
 
-// byte-wise UTF-8 validator (RFC 3629) for b[s..e], e - s <= 4
-fn valid_utf8_range(b: &[u8; 4], s: usize, e: usize) -> bool {
-    let mut i = s;
+// byte-wise UTF-8 validator (RFC 3629, Unicode table 3-7) for slices of at most 3 bytes
+fn valid_utf8(b: &[u8]) -> bool {
+    let e = b.len();
+    let mut i = 0;
     let mut steps = 0;
-    while steps < 4 {
+    while steps < 3 {
         if i < e {
             let c = b[i];
-            let need = if c < 0x80 { 0 } else if c >= 0xC2 && c <= 0xDF { 1 } else if c >= 0xE0 && c <= 0xEF { 2 } else if c >= 0xF0 && c <= 0xF4 { 3 } else { return false };
+            let need = if c < 0x80 {
+                0
+            } else if c >= 0xC2 && c <= 0xDF {
+                1
+            } else if c >= 0xE0 && c <= 0xEF {
+                2
+            } else {
+                return false; // four-byte forms do not fit in 3 bytes; C0, C1, F5.. are never valid
+            };
             if i + need >= e && need > 0 {
                 return false;
             }
-            let mut k = 1;
-            while k <= 3 {
-                if k <= need {
-                    let d = b[i + k];
-                    let (lo, hi) = if k == 1 {
-                        match c { 0xE0 => (0xA0, 0xBF), 0xED => (0x80, 0x9F), 0xF0 => (0x90, 0xBF), 0xF4 => (0x80, 0x8F), _ => (0x80, 0xBF) }
-                    } else { (0x80, 0xBF) };
-                    if d < lo || d > hi {
-                        return false;
-                    }
+            if need >= 1 {
+                let d = b[i + 1];
+                let (lo, hi) = match c {
+                    0xE0 => (0xA0, 0xBF),
+                    0xED => (0x80, 0x9F),
+                    _ => (0x80, 0xBF),
+                };
+                if d < lo || d > hi {
+                    return false;
                 }
-                k += 1;
+            }
+            if need == 2 {
+                let d = b[i + 2];
+                if d < 0x80 || d > 0xBF {
+                    return false;
+                }
             }
             i += need + 1;
         }
@@ -41,19 +54,22 @@ fn valid_utf8_range(b: &[u8; 4], s: usize, e: usize) -> bool {
     true
 }
 
-//@ tier: quick
-//@ timeout: 900
-//@ functions: arrow_data::ArrayData::{validate_utf8::<i32>, validate_each_offset, typed_offsets, typed_buffer}
-//@ bound: Utf8 ArrayData (struct literal) of ONE row at array offset 0 or 1 over three arbitrary i32 offsets and a values buffer of exactly 4 arbitrary bytes: accepted => the row's byte range is in bounds, ordered, and is valid UTF-8 on its own (so a first offset inside a multi-byte character is rejected); unwind 8
-//@ stub: alloc::fmt::format -> empty String
-#[kani::proof]
-#[kani::unwind(8)]
-#[kani::stub(alloc::fmt::format, stub_format)]
-fn c09_validate_utf8_accepts_only_valid_rows() {
+// Contract model of core::str::from_utf8 for inputs of at most 3 bytes: Ok exactly for well-formed UTF-8.  The
+// real routine's word-at-a-time ASCII fast path over a slice of symbolic start and length is what exhausted
+// the memory cap; it is std's code, not arrow's, and is taken as correct here (stated in the stub list).
+fn model_from_utf8(v: &[u8]) -> Result<&str, std::str::Utf8Error> {
+    kani::assume(v.len() <= 3);
+    if valid_utf8(v) {
+        Ok(unsafe { std::str::from_utf8_unchecked(v) })
+    } else {
+        // Utf8Error has private fields; its content is only ever formatted (formatting is stubbed)
+        Err(unsafe { std::mem::transmute::<[u64; 2], std::str::Utf8Error>([0, 0]) })
+    }
+}
+
+fn utf8_row_model(aoff: usize) {
     let offs: [i32; 3] = kani::any();
-    let vals: [u8; 4] = kani::any();
-    let aoff: usize = kani::any();
-    kani::assume(aoff <= 1);
+    let vals: [u8; 3] = kani::any();
     let d = ArrayData {
         data_type: DataType::Utf8,
         len: 1,
@@ -62,16 +78,47 @@ fn c09_validate_utf8_accepts_only_valid_rows() {
         child_data: vec![],
         nulls: None,
     };
+    // validate_full's order: the cheap first/last offset check (validate -> validate_offsets), then the per-row
+    // validator.  validate_each_offset on its own skips its first element ("the first element is meaningless"),
+    // so a negative first offset is only caught by validate_offsets: both are part of the unit checked.
+    let pre = d.validate_offsets::<i32>(3);
     let r = d.validate_utf8::<i32>();
-    let ok = r.is_ok();
+    let ok = pre.is_ok() && r.is_ok();
+    std::mem::forget(pre);
     std::mem::forget(r);
     let (s, e) = (offs[aoff], offs[aoff + 1]);
     if ok {
-        assert!(s >= 0 && s <= e && e <= 4, "accepted => offsets ordered and inside the values buffer");
-        assert!(valid_utf8_range(&vals, s as usize, e as usize), "accepted => the row is valid UTF-8 by itself");
+        assert!(s >= 0 && s <= e && e <= 3, "accepted => offsets ordered and inside the values buffer");
+        assert!(valid_utf8(&vals[s as usize..e as usize]), "accepted => the row is valid UTF-8 by itself");
     }
-    kani::cover!(ok && e - s == 3 && vals[s as usize] >= 0xE0, "a three-byte character accepted");
-    kani::cover!(!ok && s == 1 && e == 4 && vals[0] >= 0xC2, "first offset inside a character rejected");
-    kani::cover!(ok && aoff == 1 && s > 0);
+    kani::cover!(ok && e - s == 3 && vals[0] >= 0xE0, "a three-byte character accepted");
+    kani::cover!(!ok && s == 1 && e == 3 && vals[0] >= 0xC2 && vals[0] <= 0xDF && vals[1] >= 0x80 && vals[1] < 0xC0 && vals[2] < 0x80, "first offset inside a character of an otherwise valid buffer: rejected");
+    kani::cover!(ok && s > 0);
     std::mem::forget(d);
+}
+
+//@ tier: quick
+//@ timeout: 900
+//@ functions: arrow_data::ArrayData::{validate_offsets::<i32>, validate_utf8::<i32>, validate_each_offset, typed_offsets, typed_buffer}, core::str::from_utf8, str::is_char_boundary
+//@ bound: Utf8 ArrayData (struct literal) of ONE row at array offset 0 over arbitrary i32 offsets and a values buffer of exactly 3 arbitrary bytes: accepted by validate_offsets then validate_utf8 (validate_full's sequence) => the row's byte range is in bounds, ordered, and is valid UTF-8 on its own (so a first offset inside a multi-byte character is rejected); unwind 8
+//@ stub: alloc::fmt::format -> empty String; core::str::from_utf8 -> byte-wise RFC 3629 validator for <= 3 bytes (std's validator is taken as correct; what is decided is which byte ranges arrow hands to it and the char-boundary checks)
+#[kani::proof]
+#[kani::unwind(8)]
+#[kani::stub(alloc::fmt::format, stub_format)]
+#[kani::stub(std::str::from_utf8, model_from_utf8)]
+fn c09_validate_utf8_accepts_only_valid_rows() {
+    utf8_row_model(0);
+}
+
+//@ tier: quick
+//@ timeout: 900
+//@ functions: arrow_data::ArrayData::{validate_offsets::<i32>, validate_utf8::<i32>, validate_each_offset, typed_offsets, typed_buffer}
+//@ bound: as c09_validate_utf8_accepts_only_valid_rows with the row at array offset 1 (the second and third of three offsets)
+//@ stub: alloc::fmt::format -> empty String; core::str::from_utf8 -> byte-wise RFC 3629 validator for <= 3 bytes (std's validator is taken as correct; what is decided is which byte ranges arrow hands to it and the char-boundary checks)
+#[kani::proof]
+#[kani::unwind(8)]
+#[kani::stub(alloc::fmt::format, stub_format)]
+#[kani::stub(std::str::from_utf8, model_from_utf8)]
+fn c09_validate_utf8_sliced_row() {
+    utf8_row_model(1);
 }
